@@ -56,7 +56,7 @@ fn h1(method: &str, target: &str, nonce: u64, steps: u32, step_ms: u64, body: Op
 pub fn gen_req(r: &mut Rng, nonce: u64, versioned: bool) -> ErrReq {
     let steps = r.range(0, 1) as u32;
     let step_ms = *r.pick(&[0u64, 1, 7, 30]);
-    match r.below(12) {
+    match r.below(14) {
         0..=6 => {
             // scripted error
             let custom = r.chance(1, 5);
@@ -112,6 +112,48 @@ pub fn gen_req(r: &mut Rng, nonce: u64, versioned: bool) -> ErrReq {
             h2: None,
             plan: ReqPlan { nonce, head_method: false, expect: Expect::Ok { op: "ok".into() } },
         },
+        12 | 13 => {
+            // the other success types: 201, 202, 204, redirects, free-form
+            let (m, t, op): (&str, &str, &str) = *r.pick(&[
+                ("POST", "/created", "created"),
+                ("POST", "/accepted", "accepted"),
+                ("DELETE", "/deleted", "deleted"),
+                ("PUT", "/updated", "updated"),
+                ("GET", "/freeform", "freeform"),
+                ("GET", "/see_other", "see_other"),
+                ("GET", "/found", "found"),
+                ("GET", "/temp", "temp"),
+            ]);
+            let redirect = matches!(op, "see_other" | "found" | "temp");
+            if redirect && r.chance(1, 4) {
+                // a location that cannot be a header value: framework-made 500
+                ErrReq {
+                    bytes: h1(m, t, nonce, steps, step_ms, None, versioned),
+                    h2: None,
+                    plan: ReqPlan {
+                        nonce,
+                        head_method: false,
+                        expect: Expect::ErrScript {
+                            refused: false,
+                            status: 500,
+                            message: Some("Internal Server Error".into()),
+                            error_code: Some(Some("Internal".into())),
+                            headers: vec![],
+                            secret: format!("SECRET-{nonce}-redirect"),
+                            custom: false,
+                            ctor: format!("bad redirect location {t}"),
+                        },
+                    },
+                }
+            } else {
+                let target = if redirect { format!("{t}?to=/ok%3Fx%3D{nonce}") } else { t.to_string() };
+                ErrReq {
+                    bytes: h1(m, &target, nonce, steps, step_ms, None, versioned),
+                    h2: None,
+                    plan: ReqPlan { nonce, head_method: false, expect: Expect::Ok { op: op.into() } },
+                }
+            }
+        }
         8 if r.chance(1, 3) => {
             // a handler result the framework cannot serialize (as a success
             // body, or as the body of a custom error type): a framework-made
@@ -536,8 +578,23 @@ pub fn check_c13(plan: &Plan, out: &Outcome, probes: &mut Vec<&'static str>) -> 
                     if op == "ownid" {
                         probes.push("handler_supplied_request_id_checked");
                     }
-                    if resp.status != 200 {
-                        v.push(Violation { rule: "c13.ok_status".into(), detail: format!("nonce {} {op}: status {}", rq.nonce, resp.status) });
+                    let want = match op.as_str() {
+                        "created" => 201,
+                        "accepted" => 202,
+                        "deleted" | "updated" => 204,
+                        "see_other" => 303,
+                        "found" => 302,
+                        "temp" => 307,
+                        _ => 200,
+                    };
+                    if want != 200 || op == "freeform" {
+                        probes.push("other_success_type_checked");
+                    }
+                    if resp.status != want {
+                        v.push(Violation { rule: "c13.ok_status".into(), detail: format!("nonce {} {op}: status {} (expected {want})", rq.nonce, resp.status) });
+                    }
+                    if matches!(want, 302 | 303 | 307) && resp.header_str("location") != Some(format!("/ok?x={}", rq.nonce)) {
+                        v.push(Violation { rule: "c13.ok_headers".into(), detail: format!("nonce {} {op}: location {:?}", rq.nonce, resp.header_str("location")) });
                     }
                     if op == "hdr" && resp.header_str("x-sim-extra") != Some(format!("n{}", rq.nonce)) {
                         v.push(Violation { rule: "c13.ok_headers".into(), detail: format!("nonce {}: x-sim-extra {:?}", rq.nonce, resp.header_str("x-sim-extra")) });
